@@ -76,18 +76,28 @@ class PSide:
 
     def admissible(self, k):
         """byte values of the u8 read at position k that this path's own branch conditions admit"""
-        rel = [(t, lab) for t, lab in self.facts if _leaves(t) == {("rd", k)} and lab[0] == "bool"]
+        rel = [(t, lab) for t, lab in self.facts if _leaves(t) == {("rd", k)} and lab[0] in ("bool", "in", "notin")]
         out = set()
         for v in range(256):
             ok = True
             for t, lab in rel:
                 r = _eval(t, {k: v})
-                if r is None or bool(r) != bool(lab[1]):
+                if r is None or not _holds(r, lab):
                     ok = False
                     break
             if ok:
                 out.add(v)
         return out, len(rel)
+
+
+def _holds(r, lab):
+    if lab[0] == "bool":
+        return bool(r) == bool(lab[1])
+    if lab[0] == "in":
+        return r in lab[1]
+    if lab[0] == "notin":
+        return r not in lab[1]
+    return False
 
 
 def _leaves(t):
@@ -135,8 +145,9 @@ def _eval(t, env):
 class SSide:
     """one accepting stream path"""
 
-    def __init__(self, c13, bs, events):
+    def __init__(self, c13, bs, events, data_args=None, sink=2):
         self.c13 = c13
+        self.data_args = data_args      # {arg index: name} for free-function codecs; None: fields of `self`
         self.conds = []
         for t, lab in P.conds(events):
             if lab[0] == "try":
@@ -147,10 +158,12 @@ class SSide:
         self.toks = []
         for e in P.calls(events):
             _, bb, name, args, dest, ct = e
-            pos = [i for i, a in enumerate(args) if c13._is_sink(a, 2)]
+            pos = [i for i, a in enumerate(args) if c13._is_sink(a, sink)]
             if not pos:
                 continue
             m = c13.RX.match(name)
+            if m is None and name.endswith("Streamable>::stream") and name.startswith("<"):
+                m = c13.RX.match(name.split(" as ")[0] + " as chia_traits::streamable::Streamable>::stream")
             if m and m.group(2) == "stream":
                 self.toks.append(("T", m.group(1), self.abs(args[0])))
                 continue
@@ -170,6 +183,8 @@ class SSide:
             return ("opaque", str(x))
         k = x[0]
         if k == "arg":
+            if self.data_args is not None:
+                return ("self", self.data_args[x[1]]) if x[1] in self.data_args else ("opaque", "arg%d" % x[1])
             return ("selfv",) if x[1] == 0 else ("opaque", "arg%d" % x[1])
         if k == "c":
             return ("c", x[2])
@@ -395,6 +410,36 @@ def run(ctx, impls, special):
             ctx.sample({"rule": R, "type": ty, "parse_paths": len(Pp), "stream_paths": len(S),
                         "reads": [[r[1].split("::")[-1] for r in p.reads] for p in Pp][:4]})
     ctx.floor(R, "versioned / helper struct codecs", n, 6)
+
+
+def helper(ctx, R, bs, bp, names):
+    """parse vs stream of the option-pair helper: the pair parse returns, fed to stream, re-emits what parse read"""
+    from . import c13
+    data_args = {0: names[0], 1: names[1]}
+    S = [SSide(c13, bs, e, data_args=data_args, sink=3) for e, x in P.enumerate_paths(bs) if x[0] == "return" and P.ret_class(e) in ("Ok", "call")]
+    Pp = [PSide(c13, bp, e, names) for e, x in P.enumerate_paths(bp) if x[0] == "return" and P.ret_class(e) == "Ok"]
+    S = _dedup(S, lambda s: (repr(s.conds), repr(s.toks)))
+    Pp = _dedup(Pp, lambda p: (repr(p.facts), repr([(r[0], r[1]) for r in p.reads]), repr(p.built)))
+    problems = []
+    hit = set()
+    for pi, p in enumerate(Pp):
+        if p.built is None:
+            problems.append("parse path %d does not return Ok((first, second))" % pi)
+            continue
+        sel = [si for si, s in enumerate(S) if selected(p, s) is True]
+        und = [selected(p, s) for s in S if selected(p, s) not in (True, False)]
+        if len(sel) != 1 or und:
+            problems.append("parse path %d selects %d stream paths %s" % (pi, len(sel), und[:1]))
+            continue
+        hit.add(sel[0])
+        r = match_tokens(p, S[sel[0]])
+        if r:
+            problems.append("parse path %d (reads %s): %s" % (pi, [r_[1].split("::")[-1] for r_ in p.reads], r))
+    if not problems and len(hit) != len(S):
+        problems.append("%d stream paths are produced by no accepting parse path" % (len(S) - len(hit)))
+    ctx.ob(R, "helper:parse-vs-stream", not problems and len(Pp) == 4 and len(S) == 4,
+           "option-pair helper: each of the four accepted prefix values is re-emitted by stream with the members in the order they were read",
+           found=problems[:4] or {"parse": len(Pp), "stream": len(S)}, where=bp.fn.sp)
 
 
 def _dedup(xs, key):
